@@ -6,6 +6,7 @@ import (
 	"runtime"
 	"strings"
 	"sync"
+	"sync/atomic"
 	"testing"
 	"time"
 
@@ -30,7 +31,7 @@ type closePendingCase struct {
 
 func TestC16_ClosePending(t *testing.T) {
 	pbt.Run(t, pbt.Config{Prop: "C16", Unit: "TestC16_ClosePending", TrackCurrent: true,
-		Rule: "receiver without a topic holding one delivered-but-unconsumed announcement; Close and 1..2 Next calls are released together (barrier); repeated 2000..12000 times per case on fresh receivers; oracle: every call returns within 10 s (normal cost: microseconds; the goroutine dump taken at that point must show a call still inside the receiver), each Next returns the pending announcement or the closed error, Close returns nil, a later Direct returns the closed error. Non-trivial: always; distinct by case.",
+		Rule: "receiver without a topic holding one delivered-but-unconsumed announcement; Close and 1..2 Next calls meet at a spin barrier and enter the receiver together; repeated 2000..12000 times per case on fresh receivers; oracle: every call returns within 10 s (normal cost: microseconds; the goroutine dump taken at that point must show a call still inside the receiver), each Next returns the pending announcement or the closed error, Close returns nil, a later Direct returns the closed error. Non-trivial: always; distinct by case.",
 		Assumptions: []string{"interleavings are sampled by the Go scheduler on 16 cores", "10 s of real time as 'never returns', confirmed by a goroutine dump that shows the call blocked inside announce.(*Receiver)"},
 	}, func(t *rapid.T) closePendingCase {
 		return closePendingCase{Nexts: rapid.IntRange(1, 2).Draw(t, "nexts"), Reps: rapid.IntRange(2000, 12000).Draw(t, "reps"), Late: rapid.Bool().Draw(t, "late")}
@@ -55,11 +56,17 @@ func TestC16_ClosePending(t *testing.T) {
 				mu.Unlock()
 			}
 			var wg sync.WaitGroup
-			start := make(chan struct{})
+			var ready atomic.Int32 // spin barrier: the calls enter the receiver within nanoseconds of each other
+			meet := func() {
+				ready.Add(1)
+				for ready.Load() < int32(1+c.Nexts) {
+					runtime.Gosched()
+				}
+			}
 			wg.Add(1)
 			go func() {
 				defer wg.Done()
-				<-start
+				meet()
 				if err := r.Close(); err != nil {
 					report("Close returned " + err.Error())
 				}
@@ -68,7 +75,7 @@ func TestC16_ClosePending(t *testing.T) {
 				wg.Add(1)
 				go func() {
 					defer wg.Done()
-					<-start
+					meet()
 					a, err := r.Next(context.Background())
 					if err == nil && a.Cid != cidOf(1) {
 						report(fmt.Sprintf("Next returned an announcement of %s, which was never announced", a.Cid))
@@ -78,7 +85,6 @@ func TestC16_ClosePending(t *testing.T) {
 					}
 				}()
 			}
-			close(start)
 			done := make(chan struct{})
 			go func() { wg.Wait(); close(done) }()
 			select {
